@@ -364,6 +364,7 @@ pub struct DiskState {
     pub next_err_id: u64,
     pub bad_seeks: u64,
     dead: bool,
+    overrun: bool,
 }
 
 impl DiskState {
@@ -383,6 +384,7 @@ impl DiskState {
             next_err_id: 1000,
             bad_seeks: 0,
             dead: false,
+            overrun: false,
         }
     }
     /// start of an API call: install the plan, reset the per-operation counter and logs
@@ -393,6 +395,7 @@ impl DiskState {
         self.writes.clear();
         self.injected.clear();
         self.dead = false;
+        self.overrun = false;
     }
     pub fn disarm(&mut self) {
         self.plan = FaultPlan::default();
@@ -414,6 +417,11 @@ impl DiskState {
         self.op_calls += 1;
         let in_drop = Self::in_drop();
         if self.op_calls > self.plan.budget {
+            if self.overrun {
+                // already unwinding from the overrun: destructors that still do I/O just see a dead device
+                return Err(SimIoError { kind: ErrKind::Hard, id: 1 });
+            }
+            self.overrun = true;
             self.fired.budget_overruns += 1;
             std::panic::panic_any(BudgetOverrun);
         }
